@@ -190,6 +190,10 @@ def stmts(draw, cfg: Cfg, mode: str, version: int, fields, subs: List[str], dept
         elif kind == "while":
             if cfg.on("abs_read_in_loop"):
                 body = draw(stmts(cfg, mode, version, fields, subs, depth + 1, budget, in_sub))
+                if subs and draw(st.integers(0, 2)) == 0:
+                    # loop whose first body statement is a call: with the do-while lowering the loop header
+                    # block itself ends in callsub
+                    body.insert(0, ["call", draw(st.sampled_from(subs))])
             else:
                 # known finding: a loop body is never part of a reported path; keep absolute-index
                 # reads (and calls, which could hide them) out of loop bodies
